@@ -301,6 +301,11 @@ type check struct {
 	run         func(c *check, replay string) int
 	race        bool
 	parts       []*part
+	tests       []string // several test functions (each sharded); default: test
+	prebuilt    string
+	goccPath    string
+	fuzz        string
+	fuzzTime    string
 	onBatch     func(c *check, p *part, b *batch.Batch, m *merged) string
 }
 
@@ -330,12 +335,21 @@ type shardResult struct {
 	stat string
 }
 
-func runSharded(c *check, replay string) int {
-	gocc := ""
-	if c.needGocc {
+func runSharded(c *check, replay string) int { return runShardedTests(c, replay) }
+
+func runShardedTests(c *check, replay string) int {
+	gocc := c.goccPath
+	if c.needGocc && gocc == "" {
 		gocc = buildGocc()
 	}
-	bin := buildTest(c)
+	bin := c.prebuilt
+	if bin == "" {
+		bin = buildTest(c)
+	}
+	tests := c.tests
+	if len(tests) == 0 {
+		tests = []string{c.test}
+	}
 	replayOut := filepath.Join(scratch, "replays")
 	os.MkdirAll(replayOut, 0o755)
 	known := strings.Join(knownClasses(c.id), ",")
@@ -369,7 +383,7 @@ func runSharded(c *check, replay string) int {
 	for i, rp := range replays {
 		stat := filepath.Join(scratch, fmt.Sprintf("rstat%d.json", i))
 		env := append(append([]string{}, baseEnv...), "VERIF_REPLAY="+rp, "VERIF_STATS="+stat, "VERIF_SHARD=r")
-		o, err := run(scratch, env, bin, "-test.run", "^"+c.test+"$", "-test.timeout", "10m")
+		o, err := run(scratch, env, bin, "-test.run", "^"+tests[0]+"$", "-test.timeout", "10m")
 		m.add(stat)
 		if err != nil {
 			if strings.Contains(o, "INFRA:") {
@@ -393,19 +407,21 @@ func runSharded(c *check, replay string) int {
 
 	// 2. search
 	tc := c.tier()
-	results := make([]shardResult, tc.shards)
+	results := make([]shardResult, tc.shards*len(tests))
 	var wg sync.WaitGroup
-	for s := 0; s < tc.shards; s++ {
-		wg.Add(1)
-		go func(s int) {
-			defer wg.Done()
-			stat := filepath.Join(scratch, fmt.Sprintf("stat%d.json", s))
-			env := append(append([]string{}, baseEnv...), "VERIF_STATS="+stat, "VERIF_SHARD="+strconv.Itoa(s))
-			sd := seed*1000 + s
-			o, err := run(scratch, env, bin, "-test.run", "^"+c.test+"$", "-test.timeout", "0",
-				"-rapid.checks", strconv.Itoa(tc.checks), "-rapid.seed", strconv.Itoa(sd), "-rapid.nofailfile")
-			results[s] = shardResult{o, err, stat}
-		}(s)
+	for ti, tname := range tests {
+		for s := 0; s < tc.shards; s++ {
+			wg.Add(1)
+			go func(ti int, tname string, s int) {
+				defer wg.Done()
+				stat := filepath.Join(scratch, fmt.Sprintf("stat%d_%d.json", ti, s))
+				env := append(append([]string{}, baseEnv...), "VERIF_STATS="+stat, "VERIF_SHARD="+strconv.Itoa(s))
+				sd := seed*1000 + ti*100 + s
+				o, err := run(scratch, env, bin, "-test.run", "^"+tname+"$", "-test.timeout", "0",
+					"-rapid.checks", strconv.Itoa(tc.checks), "-rapid.seed", strconv.Itoa(sd), "-rapid.nofailfile")
+				results[ti*tc.shards+s] = shardResult{o, err, stat}
+			}(ti, tname, s)
+		}
 	}
 	wg.Wait()
 	for s, r := range results {
